@@ -326,7 +326,19 @@ def main(tier, seed):
             part = lst[i::k]
             if part:
                 jobs.append({"regime": regime, "cases": part, "seed": seed, "wseed": i})
+    # the real world in parallel: real asyncio loop, real UDP on 127.0.0.1, simulator on its engine thread
+    import threading
+
+    real = {}
+
+    def real_part():
+        real["res"] = run_shards("checks.c01_real", "shard_real", [{"tier": tier, "seed": seed, "pairs": 8}], timeout=3000 if tier == "thorough" else 900, workers=1)
+
+    th = threading.Thread(target=real_part)
+    th.start()
     run.absorb(run_shards("checks.c01", "shard_async", jobs, timeout=3000 if tier == "thorough" else 900))
+    th.join()
+    run.absorb(real["res"])
     try:
         from checks import c01_threaded
 
@@ -336,9 +348,11 @@ def main(tier, seed):
     fk = run.sets.get("async_fault_kinds", set())
     for k in ("none", "drop-seg", "dup-seg", "swap", "drop-req", "dup-req", "drop-last", "blackout", "random"):
         run.need(k in fk, f"fault kind {k} never exercised")
+    if not run.counters.get("real_world_unavailable"):
+        run.need(run.counters.get("real_success", 0) >= 10 and run.counters.get("real_failure", 0) + len([o for o in run.sets.get("real_outcomes", ()) if o.endswith(":True") and not o.startswith("none")]) >= 3, "the real-UDP part observed too few transfers")
     run.need(run.counters.get("async_success", 0) > 200 and run.counters.get("async_failure", 0) > 5, "too few successful/failed transfers observed")
     return run.finish(
-        rule="fault-free transfers for lengths 1..40 and around multiples of 39 / block end / random (thorough: every length at start 0, every start for lengths 38,39,40,78,117 and to-the-end); fault enumeration on 6-10 (start,length) shapes: every single segment drop, duplicate, adjacent swap, request drop/duplicate, repeated final-segment loss, blackout, with static and per-attempt-varying spa blocks; drawn multi-fault scripts (loss/duplication/delay up to 1 s) under regimes B/J/H; one evaluation = one struct.get call; a case is non-trivial iff fault-free or its fault actually hit a datagram of the transfer; distinct by (start,length,fault,index,attempts,outcome)",
+        rule="fault-free transfers for lengths 1..40 and around multiples of 39 / block end / random (thorough: every length at start 0, every start for lengths 38,39,40,78,117 and to-the-end); fault enumeration on 6-10 (start,length) shapes: every single segment drop, duplicate, adjacent swap, request drop/duplicate, repeated final-segment loss, blackout, with static and per-attempt-varying spa blocks; drawn multi-fault scripts (loss/duplication/delay up to 1 s) under regimes B/J/H; one evaluation = one struct.get call; a case is non-trivial iff fault-free or its fault actually hit a datagram of the transfer; distinct by (start,length,fault,index,attempts,outcome); plus the real world: 8 client/simulator pairs in one process on a real asyncio loop over UDP on 127.0.0.1 (simulator on its own engine thread), faults applied at the simulator's OS socket, timing-independent clauses only",
         assumptions=["delays are shorter than the gap between distinct transfers (harness waits for quiescence between cases)", "the fault-free clause is judged under regime B only and a transfer that lost a segment to the client's own unhandled-consumer is not counted as fault-free", "with a per-attempt varying spa block each installed byte must equal the spa's byte at some instant of the transfer"],
     )
 
